@@ -104,12 +104,16 @@ func (cl *ClientLimiter) gcLoop() {
 }
 
 func (cl *ClientLimiter) gc() {
-	ddl := time.Now().Add(-entryTtl)
+	now := time.Now()
+	ddl := now.Add(-entryTtl)
 	cl.m.Range(func(key netip.Addr, value *e) bool {
 		value.m.Lock()
 		lastSeen := value.lastSeen
+		// A bucket that has not been refilled yet must be kept. Otherwise
+		// its client will get a fresh burst from a new bucket.
+		refilled := value.l.TokensAt(now) >= float64(cl.opts.Burst)
 		value.m.Unlock()
-		if lastSeen.Before(ddl) {
+		if lastSeen.Before(ddl) && refilled {
 			cl.m.Delete(key)
 		}
 		return true
